@@ -137,3 +137,64 @@ Example plan_example :
         (10, 7, [(1, 1, true)], (-1, -1)); (10, 7, [(1, 1, false)], (-1, -1)); (10, 7, [(1, 1, false)], (-1, -1));
         (11, 7, [(1, 1, false)], (-1, -1))].
 Proof. split; reflexivity. Qed.
+
+(* ---- shaping.LineWrapper (model of C02: Model/Wrap.v; proofs: Proofs/WrapReuse.v) ------------------------------------ *)
+From TV Require Import Model.Wrap Spec.Wrap Proofs.WrapLines Proofs.WrapReuse.
+
+(* wrap_history_independent: for EVERY LineWrapper state w — in particular every state reachable by any history of
+   Prepare / WrapNextLine / WrapParagraph calls on other paragraphs, finished or abandoned — and every paragraph whose runs
+   are well-formed on the store as it is now (wf_runs), every configuration, break attributes and widths:
+   Prepare followed by any sequence of WrapNextLine calls observes exactly what the same calls observe from the zero
+   LineWrapper: the same per-call results (line, Truncated, NextLine, done), the same final glyph store, the same failure
+   if any.  Prepare resets every field except the rune -> glyph mapping buffer; the stale buffer, its length and run index
+   do not matter because the valid flag is cleared and mapRunesToClusterIndices3 overwrites every entry of a well-formed
+   run (C02 map3_correct).  (For malformed runs the stale buffer can leak: entries not covered by a cluster are kept.) *)
+Theorem wrap_history_independent : forall n w cfg attrs runs widths,
+  wf_runs (w_st w) runs n = true ->
+  obs_calls (run_calls (prepare w cfg attrs runs 0 0) widths)
+  = obs_calls (run_calls (prepare (w_zero (w_st w)) cfg attrs runs 0 0) widths).
+Proof. exact history_independent_calls. Qed.
+Print Assumptions wrap_history_independent.
+
+(* the same for WrapParagraph (fast path included) *)
+Theorem wrap_paragraph_history_independent : forall n w cfg attrs runs mw,
+  wf_runs (w_st w) runs n = true ->
+  obs_paragraph (wrap_paragraph w cfg mw attrs runs)
+  = obs_paragraph (wrap_paragraph (w_zero (w_st w)) cfg mw attrs runs).
+Proof. exact history_independent_paragraph. Qed.
+Print Assumptions wrap_paragraph_history_independent.
+
+(* non-vacuity: a wrapper abandoned after two lines of another paragraph (other break attributes, width 1) holds a valid
+   stale mapping for run 1; the runs are still well-formed on its (edited) store; Prepare + three calls at width 2 succeed
+   and return what the zero wrapper returns *)
+Definition ex_hist_st : store :=
+  [[mkGlyph 0 1 1 64 64 0 0 0; mkGlyph 1 1 1 64 64 0 0 0]; [mkGlyph 2 1 2 32 32 0 0 0; mkGlyph 2 1 2 32 32 0 0 0]; []].
+Definition ex_hist_runs : list out := [mkOut 128 0 0 2 0 0 2 0; mkOut 64 0 2 1 1 0 2 0].
+Definition ex_hist_w : W :=
+  match run_calls (prepare (w_zero ex_hist_st) cfg_zero [4; 5; 5; 7] ex_hist_runs 0 0) [1; 1; 1] with
+  | Ok (w, _) => w | _ => w_zero [] end.
+Example wrap_history_example :
+  m_back (w_mp ex_hist_w) <> [] /\ wf_runs (w_st ex_hist_w) ex_hist_runs 3 = true
+  /\ exists s1 rs, obs_calls (run_calls (prepare ex_hist_w cfg_zero [4; 4; 5; 7] ex_hist_runs 0 0) [2; 2; 2]) = Ok (s1, rs)
+       /\ obs_calls (run_calls (prepare (w_zero (w_st ex_hist_w)) cfg_zero [4; 4; 5; 7] ex_hist_runs 0 0) [2; 2; 2]) = Ok (s1, rs)
+       /\ map (fun x => wl_next (fst x)) rs = [2; 3; 3].
+Proof. vm_compute. split; [discriminate|]. split; [reflexivity|]. eexists _, _. repeat split; reflexivity. Qed.
+
+(* ---------------------------------------------------------------------------------------------------------------- *)
+(* The two segmenters: their history independence is proved in the pipelines of C06 and C07; restated here so that
+   every reusable object named by the property is under a theorem of this file. *)
+From TV Require Model.Segmenter Proofs.SegIter Model.Itemize Proofs.Itemize.
+
+(* segmenter.Segmenter: Init on a used object = Init on a fresh one (attributes and therefore all iterators) *)
+Theorem unicode_segmenter_history_independent :
+  forall (s : TV.Model.Segmenter.segmenter) paragraph,
+    TV.Model.Segmenter.seg_init s paragraph = TV.Model.Segmenter.seg_init TV.Model.Segmenter.seg_zero paragraph.
+Proof. exact TV.Proofs.SegIter.seg_init_fresh. Qed.
+Print Assumptions unicode_segmenter_history_independent.
+
+(* shaping.Segmenter: Split after any history of Split calls (stale buffers, delimiter stack) = Split on a fresh one *)
+Theorem itemizer_history_independent :
+  forall e (s : TV.Model.Itemize.segmenter) x,
+    TV.Model.Itemize.split_runs e s x = TV.Model.Itemize.split_runs e TV.Model.Itemize.seg_zero x.
+Proof. exact TV.Proofs.Itemize.state_independent_lemma. Qed.
+Print Assumptions itemizer_history_independent.
